@@ -158,6 +158,13 @@ def spec_digest(*modules: str) -> str:
 
 def prune_cache() -> None:
     """Drop cached explorations of older versions of the specification (disk space is limited)."""
+    if WORK.exists():          # scratch directories left behind by killed runs (older than three hours)
+        for f in WORK.iterdir():
+            try:
+                if time.time() - f.stat().st_mtime > 3 * 3600:
+                    shutil.rmtree(f, ignore_errors=True) if f.is_dir() else f.unlink()
+            except OSError:
+                pass
     if not CACHE.exists():
         return
     d = spec_digest()
